@@ -55,6 +55,11 @@ PROPS['C08']['bridge'] += ['mech_writeback_eq', 'effects_regular_bodies_are_pure
 PROPS['C09']['bridge'] += ['mech_writeback_eq', 'mech_truthy_eq']
 PROPS['C13']['bridge'] += ['effects_cover_all_commands', 'effects_regular_bodies_are_pure', 'effects_special_bodies_touch_the_server']
 
+# static lock discipline of the socket classes (Generated/Locks, Bridge/Locks; meaning: FR.Props.C12l.disciplined_sound)
+PROPS['C12']['bridge'] += ['locks_sync_disciplined', 'locks_async_disciplined', 'locks_tables_meaningful']
+PROPS['C14']['bridge'] += ['locks_async_disciplined']
+PROPS['C20']['bridge'] += ['locks_sync_disciplined']
+
 # theorem lists are kept in a separate generated-by-hand table so that they can grow without touching the above
 try:
     from obligations import OBLIGATIONS
